@@ -124,12 +124,14 @@ pub fn c01_c02(c: &mut Ctx) {
             }
             c.chk.hit("C01");
             c.chk.hit("C02");
+            c.chk.hit("C07");
             let m = h.msgs.get(&mid);
             let he = m.map(|m| m.henter.clone()).unwrap_or_default();
             if he.len() != 1 {
                 if he.is_empty() {
                     let text = format!("message {mid} was accepted by actor {a} ({:?} returned Ok at seq {ret_seq}) before stop/last-drop but never handled although the actor ended gracefully", o.tag);
                     c.v("C01", "accepted-not-handled", ret_seq, text.clone());
+                    c.v("C07", "accepted-work-not-finished", ret_seq, text.clone());
                     c.v("C02", "accepted-before-stop-not-handled", ret_seq, text);
                 }
             } else if he[0].0 > stop_enter {
